@@ -1,4 +1,5 @@
 import PncProofs.ArrLemmas
+import PncProofs.ZipLemmas
 import PncModel.File
 
 /-!
@@ -99,5 +100,32 @@ theorem int_keeps_unit_axis (n : Nat) (i : Int) (l : List Nat) (h : (PSel.int i)
 example : sliceIndices 5 (some (-2)) (some (-9)) (-2) = [3, 1] ∧ sliceIndices 5 none none (-1) = [4, 3, 2, 1, 0]
     ∧ sliceIndices 5 (some 7) none 1 = [] ∧ normInt 5 (-5) = some 0 ∧ normInt 5 5 = none := by
   decide
+
+
+/-! ## two or more index lists acting together (the pointwise selection on the new dimension) -/
+
+/-- **C02 (pointwise selection, element-wise).** With index lists of one length `L` on several axes, the cell at an
+index of the result — position `p` on the new axis, positions on the kept axes — is the cell of the source at: entry `p`
+of every zipped list on the zipped axes, the selected entry on every other axis. Nothing else is selected, nothing is
+reordered. -/
+theorem zip_get {α : Type} (L : Nat) (ss : List Sel) (sh : List Nat) (a r : Arr α) (idx : List Nat)
+    (h : hasShape sh a = true) (hin : ZSelsIn ss sh) (hl : ZLen L ss) (hr : zipSel L ss a = some r) :
+    Arr.get r idx = (zipIdx ss idx).bind (Arr.get a) :=
+  zipSel_get L ss sh a r idx h hin hl hr
+
+/-- **C02 (pointwise selection, shape).** The result has the new axis (length `L`) where the first zipped axis was, the
+other zipped axes are gone, every other axis has the length of its selection. -/
+theorem zip_shape {α : Type} (L : Nat) (ss : List Sel) (sh : List Nat) (a r : Arr α)
+    (h : hasShape sh a = true) (hin : ZSelsIn ss sh) (hr : zipSel L ss a = some r) :
+    hasShape (zipShape L ss sh) r = true :=
+  zipSel_shape L ss sh a r h hin hr
+
+/-- non-vacuity: `A[t, [1, 0, 1], [0, 0, 1]]` of a 1 x 2 x 2 array picks (1,0), (0,0), (1,1) -/
+example :
+    let a : Arr Nat := .node [.node [.node [.leaf 1, .leaf 2], .node [.leaf 3, .leaf 4]]]
+    let ss := [Sel.keep [0], Sel.zip [1, 0, 1], Sel.zip [0, 0, 1]]
+    ZSelsIn ss [1, 2, 2] ∧ ZLen 3 ss ∧ (zipSel 3 ss a).map flatten = some [3, 1, 4] ∧
+      zipShape 3 ss [1, 2, 2] = [1, 3] ∧ zipIdx ss [0, 2] = some [0, 1, 1] := by
+  refine ⟨by simp [ZSelsIn], by simp [ZLen], by decide, by decide, by decide⟩
 
 end Props.C02
